@@ -650,7 +650,56 @@ var c11Polls = []string{"N", "B", "NN", "BB", "NB", "BN", "NNN", "BBB", "BNB"}
 
 const c11LongUnits = 8
 
-func (c11) Units(t core.Tier) int { return len(reachableStates()) + c11LongUnits }
+const c11EdgeUnits = 3
+
+func (c11) Units(t core.Tier) int { return len(reachableStates()) + c11LongUnits + c11EdgeUnits }
+
+// c11Edge: the 27 stores over keys {'', a, b} x values {1, x} (the empty key is
+// a key like any other) under predicates that compare the key with the empty
+// literal, alone and joined with key pins: a region that merely contains the
+// matching keys must not be removed as if it were the set of matching keys.
+func c11Edge(t core.Tier, part int, r *core.Reporter) {
+	k, v, sx := ref.Key, ref.Value, ref.S
+	eq := func(l string) *ref.Expr { return ref.Bin("=", k(), sx(l)) }
+	atoms := []*ref.Expr{
+		ref.Bin("<", k(), sx("")), ref.Bin(">", sx(""), k()), ref.Bin("<=", k(), sx("")), ref.Bin(">=", sx(""), k()), eq(""), ref.Bin("=", sx(""), k()),
+		ref.Bin(">", k(), sx("")), ref.Bin(">=", k(), sx("")), ref.Bin("<", sx(""), k()), ref.Bin("!=", k(), sx("")), ref.Bin("^=", k(), sx("")),
+		ref.In(k(), sx(""), sx("a")), ref.In(k(), sx("")), ref.Btw(k(), sx(""), sx("")), ref.Btw(k(), sx(""), sx("a")), ref.Bin("<", k(), sx("a")), ref.Bin("<=", k(), sx("a")),
+	}
+	preds := append([]*ref.Expr(nil), atoms...)
+	for _, a := range atoms {
+		preds = append(preds,
+			ref.Bin("|", eq("b"), a.Clone()), ref.Bin("|", a.Clone(), ref.In(k(), sx("a"), sx("b"))), ref.Bin("or", a.Clone(), eq("zz")),
+			ref.Bin("&", a.Clone(), ref.Bin("=", v(), sx("1"))), ref.Bin("&", ref.In(k(), sx(""), sx("a"), sx("b")), a.Clone()), ref.Bin("|", a.Clone(), ref.Bin("=", v(), sx("x"))), ref.Not(a.Clone()))
+		for _, b := range atoms[:6] {
+			preds = append(preds, ref.Bin("|", a.Clone(), b.Clone()), ref.Bin("&", a.Clone(), b.Clone()))
+		}
+	}
+	keys := []string{"", "a", "b"}
+	vals := []string{"1", "x"}
+	for code := part; code < 27; code += c11EdgeUnits {
+		var ps []store.Pair
+		x := code
+		for _, key := range keys {
+			d := x % 3
+			x /= 3
+			if d > 0 {
+				ps = append(ps, store.Pair{K: key, V: vals[d-1]})
+			}
+		}
+		for _, p := range preds {
+			for _, lim := range [][]int{nil, {1}, {1, 1}, {0, 5}} {
+				w := &wstmt{Kind: "delete", Pred: p, Lim: lim}
+				for _, b := range []int{1, 2} {
+					for _, polls := range []string{"N", "B"} {
+						c := wcase{Prop: "C11", Prior: ps, Stmt: w, B: b, Polls: polls}
+						runWriteCase(r, &c)
+					}
+				}
+			}
+		}
+	}
+}
 
 // c11Long: DELETE over 8-pair stores outside the 81-state space (every
 // accept/reject pattern of a value filter), so that child chunks larger than
@@ -697,6 +746,10 @@ func c11Long(t core.Tier, part int, r *core.Reporter) {
 }
 
 func (c11) RunUnit(t core.Tier, u int, r *core.Reporter) {
+	if u >= len(reachableStates())+c11LongUnits {
+		c11Edge(t, u-len(reachableStates())-c11LongUnits, r)
+		return
+	}
 	if u >= len(reachableStates()) {
 		c11Long(t, u-len(reachableStates()), r)
 		return
